@@ -35,7 +35,8 @@ RULE = ('one run = one simulated hand (all variants incl. hi-lo, single board) p
         'is within 6 standard errors of the exact enumeration with ref/evalhand.py. Two further probes on full deals: a hole '
         'card and a board card change places (same cards, other hands) and the result must equal the settlement model with '
         'ref/evalhand.py; and every player gets a range of several combinations that collide with the other players\' '
-        'cards, where the result must still be non-negative and sum to 1 for every seed and schedule. non-trivial = single-pot showdown with '
+        'cards or with the board, where the result must still be non-negative and sum to 1 for every seed and schedule and every deal '
+        'that is evaluated (recorded through subclassed hand types) must consist of distinct cards. non-trivial = single-pot showdown with '
         '>= 2 players; distinct = distinct (variant, players, winners pattern) tuples')
 ASSUMPTIONS = [
     'only the equity clauses of C18 are decided; range-notation identities and ICM are pure functions of their input',
@@ -237,7 +238,9 @@ def analyse(ch, ctx, st, pre, run_key):
                 other = holes[(i + 1 + ch.pick('c18.overlap.from', n - 1)) % n] if n > 1 else holes[i]
                 alt = list(holes[i])
                 # an alternative holding that takes a card from ANOTHER player's holding (or a free card)
-                src = other if ch.pick('c18.overlap.kind', 3) else free
+                kind_o = ch.pick('c18.overlap.kind', 4)
+                # ... or a card that lies on the BOARD: such a holding can never be dealt and must not be evaluated
+                src = free if kind_o == 0 else (list(board) if kind_o == 3 and board else other)
                 if src:
                     alt[ch.pick('c18.overlap.pos', len(alt))] = src[ch.pick('c18.overlap.card', len(src))]
                 if len(set(alt)) == len(alt) and alt not in combos:
@@ -247,13 +250,22 @@ def analyse(ch, ctx, st, pre, run_key):
         for kind in ('none', 'sim'):
             boot.set_run_key(f'{run_key}-ov-{kind}')
             ex = SimExecutor(ch, ctx) if kind == 'sim' else None
+            rec_o = tuple(recording(h) for h in hand_types)
+            del LOG[:]
             try:
-                eq = calculate_equities(ranges_o, board, hc, bc, deck, hand_types, sample_count=k, executor=ex)
+                eq = calculate_equities(ranges_o, board, hc, bc, deck, rec_o, sample_count=k, executor=ex)
             except Exception as e:      # noqa: BLE001
                 raise Violation('C18.exc', f'calculate_equities with colliding ranges raised {type(e).__name__}: {e}; ranges '
                                 f'{ranges_o} board {board}', rule='exc', exc=type(e).__name__)
             check_vector(eq, n, f'colliding ranges {ranges_o}, board {board}, executor={kind}, samples={k}')
             ctx.count('colliding_range_calls')
+            per_o = n * len(hand_types)
+            for s_ in range(len(LOG) // per_o):
+                chunk = LOG[s_ * per_o:s_ * per_o + n]
+                cards = [c for h, _ in chunk for c in h] + list(chunk[0][1])
+                if len(set(cards)) != len(cards):
+                    raise Violation('C18.duplicate', f'a deal evaluated for colliding ranges contains the same card twice: holes '
+                                    f'{[h for h, _ in chunk]} board {chunk[0][1]} (ranges {ranges_o})', rule='duplicate')
     # ---- cards removed: sampling --------------------------------------------------------------------------
     plan = ch.pick('c18.missing', 3)
     holes2 = [list(h) for h in holes]
